@@ -149,7 +149,7 @@ func use(p any, k *ownKey, art []byte) ([]byte, error) {
 	case prf.PRF:
 		return q.ComputePRF(k.msg, 16)
 	case tink.StreamingAEAD:
-		return decryptStream(q, art)
+		return decryptStream(q, art, k.msg)
 	case tink.HybridDecrypt:
 		return q.Decrypt(art, ad)
 	case tink.Verifier:
@@ -266,11 +266,11 @@ func ownKeys(t *conc.Target, n int, sc int) []*ownKey {
 func envelopeOps(dek *tinkpb.KeyTemplate, kek tink.AEAD) []*op {
 	env := aead.NewKMSEnvelopeAEAD2(dek, kek)
 	return []*op{
-		{name: "Encrypt", rand: true, call: func(in, _ []byte) ([]byte, error) { return env.Encrypt(in, ad) },
-			invName: "Decrypt", inv: func(out, _ []byte) ([]byte, error) { return env.Decrypt(out, ad) }},
-		{name: "Decrypt", from: "Encrypt", call: func(in, _ []byte) ([]byte, error) { return env.Decrypt(in, ad) }},
-		{name: "aead.NewKMSEnvelopeAEAD2+Decrypt", from: "Encrypt", call: func(in, _ []byte) ([]byte, error) {
-			return aead.NewKMSEnvelopeAEAD2(dek, kek).Decrypt(in, ad)
+		{name: "Encrypt", rand: true, call: func(in, _ []byte) ([]byte, error) { return env.Encrypt(in, adFor(in)) },
+			invName: "Decrypt", inv: func(out, msg []byte) ([]byte, error) { return env.Decrypt(out, adFor(msg)) }},
+		{name: "Decrypt", from: "Encrypt", call: func(in, msg []byte) ([]byte, error) { return env.Decrypt(in, adFor(msg)) }},
+		{name: "aead.NewKMSEnvelopeAEAD2+Decrypt", from: "Encrypt", call: func(in, msg []byte) ([]byte, error) {
+			return aead.NewKMSEnvelopeAEAD2(dek, kek).Decrypt(in, adFor(msg))
 		}},
 	}
 }
